@@ -624,12 +624,13 @@ func (s *seqRunner) close() { s.r.Close() }
 // ---- BFS driver ----
 
 type seqParams struct {
-	Cfg      CacheCfg   `json:"cfg"`
-	Alphabet []string   `json:"alphabet"`
-	Prefixes [][]string `json:"prefixes,omitempty"` // explored from each of these non-initial states (default: the empty prefix)
-	Kinds    []string   `json:"kinds,omitempty"`    // discrepancy kinds that count for this property (empty = all)
-	Stats    bool       `json:"stats,omitempty"`
-	Probe    bool       `json:"probe,omitempty"`
+	Cfg      CacheCfg       `json:"cfg"`
+	Alphabet []string       `json:"alphabet"`
+	Prefixes [][]string     `json:"prefixes,omitempty"` // explored from each of these non-initial states (default: the empty prefix)
+	Kinds    []string       `json:"kinds,omitempty"`    // discrepancy kinds that count for this property (empty = all)
+	Stats    bool           `json:"stats,omitempty"`
+	Probe    bool           `json:"probe,omitempty"`
+	Persist  *persistParams `json:"persist,omitempty"`
 }
 
 func init() {
@@ -706,7 +707,21 @@ func seqExplore(res *Result, raw json.RawMessage, job *Job) {
 		if len(res.Samples) < 3 && (res.Executions == 5 || res.Executions == 500 || res.Executions == 5000) {
 			res.Samples = append(res.Samples, map[string]any{"cfg": p.Cfg.String(), "ops": ops, "last_result": obs})
 		}
-		return s.stateKey(), bad
+		key := s.stateKey()
+		if p.Persist != nil && !bad {
+			if _, dup := seen[key]; !dup {
+				s.step = len(ops)
+				n := persistCheck(s, p.Persist, func(kind, subject, format string, args ...any) {
+					sig := kind + "/" + subject
+					res.ViolCount[sig]++
+					if old := viol[sig]; old == nil || len(ops) < len(old.Ops) {
+						viol[sig] = &Violation{Discrepancy: Discrepancy{Kind: kind, Subject: subject, Detail: fmt.Sprintf(format, args...)}, Scenario: "cache.seq", Params: raw, Ops: append(append([]string(nil), ops...), "save; load"), Cost: len(ops)}
+					}
+				})
+				res.Counters["round-trips"] += n
+			}
+		}
+		return key, bad
 	}
 	// roots
 	for _, it := range frontier {
